@@ -470,7 +470,13 @@ func (w *World) Exec(o *Op, consensus []string) *nat.CallRecord {
 	case o.NoSig:
 		return w.E.Call(c, o.Kind, args)
 	case o.OpSig:
-		return w.E.Call(c, o.Kind, args, nat.Operator(w.keysOf(consensus)))
+		ks := w.keysOf(consensus)
+		if len(ks) == 0 {
+			// no member key to build an operator multi-signature from: the call goes out unsigned
+			// (a signature entry without keys cannot even be serialised)
+			return w.E.Call(c, o.Kind, args)
+		}
+		return w.E.Call(c, o.Kind, args, nat.Operator(ks))
 	case w.RealSig:
 		return w.E.Call(c, o.Kind, args, pk.Single(o.Actor.Key))
 	default:
